@@ -82,6 +82,12 @@ def main():
     ok_all = True
     try:
         subprocess.check_call(["rsync", "-a", "--exclude", "target", "--exclude", ".git", REPO + "/", tree + "/"])
+        pristine = os.path.join(scratch, "pristine")
+        subprocess.check_call(["rsync", "-a", tree + "/", pristine + "/"])
+
+        def restore():
+            # exact restore (a reversed patch can leave rejects / created files behind)
+            subprocess.check_call(["rsync", "-a", "--delete", "--checksum", pristine + "/", tree + "/"])
         env = dict(os.environ, ZVT_REPO=tree, ZVT_EVIDENCE_DIR=evdir, CARGO_NET_OFFLINE="true")
         # baseline: the scratch copy itself must be clean
         if not only and not for_pid:
@@ -150,6 +156,7 @@ def main():
                 if a.returncode != 0:
                     a = sh(["patch", "-p1", "-s", "-i", pf], cwd=tree)
                 if a.returncode != 0:
+                    restore()
                     results["seeds"][s] = {"status": "stale", "error": a.stdout[-300:]}
                     print(s, "STALE patch", flush=True)
                     ok_all = False
@@ -157,7 +164,7 @@ def main():
                 try:
                     res, err = evaluate(env, [for_pid] if for_pid else IDS)
                 finally:
-                    sh(["patch", "-p1", "-R", "-s", "-i", pf], cwd=tree)
+                    restore()
                 if res is None:
                     results["seeds"][s] = {"status": "does-not-compile", "error": err[-600:]}
                     ok_all = False
@@ -177,7 +184,7 @@ def main():
                     continue
                 a = sh(["patch", "-p1", "-s", "-i", pf], cwd=tree)
                 if a.returncode != 0:
-                    sh(["patch", "-p1", "-R", "-s", "-f", "-i", pf], cwd=tree)
+                    restore()
                     results["refactors"][name] = {"status": "stale", "error": a.stdout[-300:]}
                     print(name, "STALE patch", flush=True)
                     ok_all = False
@@ -185,7 +192,7 @@ def main():
                 try:
                     res, err = evaluate(env, IDS)
                 finally:
-                    sh(["patch", "-p1", "-R", "-s", "-i", pf], cwd=tree)
+                    restore()
                 if res is None:
                     results["refactors"][name] = {"status": "does-not-compile", "error": err[-600:]}
                     print(name, "DOES NOT COMPILE", flush=True)
